@@ -13,16 +13,16 @@ import (
 )
 
 type SpecEnv struct {
-	fx     *Fx
-	st     *State
-	old    *State
-	bound  map[string]Val
-	pos    token.Pos // scope position for identifier lookup
-	pkg    *packages.Package
-	qdepth int
-	inOld  bool
+	fx        *Fx
+	st        *State
+	old       *State
+	bound     map[string]Val
+	pos       token.Pos // scope position for identifier lookup
+	pkg       *packages.Package
+	qdepth    int
+	inOld     bool
 	resultIdx int
-	label  map[string]*State
+	label     map[string]*State
 }
 
 type specErr struct{ msg string }
@@ -1211,10 +1211,25 @@ func (fx *Fx) specCall(env *SpecEnv, e *SCall) Val {
 		if x.GT == nil {
 			sfail("method call on untyped term")
 		}
-		obj, _, _ := types.LookupFieldOrMethod(x.GT, true, fx.pkgOf(x.GT, env), sel.Sel)
+		obj, mindex, _ := types.LookupFieldOrMethod(x.GT, true, fx.pkgOf(x.GT, env), sel.Sel)
 		fn, ok := obj.(*types.Func)
 		if !ok {
 			sfail("no method %s on %s", sel.Sel, x.GT)
+		}
+		// a method promoted through embedded fields is called on the embedded value
+		for _, idx := range mindex[:len(mindex)-1] {
+			s, named, isPtr := structOf(x.GT)
+			if s == nil {
+				sfail("promoted method %s: path through %s", sel.Sel, x.GT)
+			}
+			fl := s.Field(idx)
+			fs := c.sortOf(fl.Type())
+			if isPtr {
+				h := env.state().heap(fieldKey(named, fl.Name()), "(Array Int "+fs+")")
+				x = Val{T: fmt.Sprintf("(select %s %s)", h, x.T), S: fs, GT: fl.Type()}
+			} else {
+				x = Val{T: fmt.Sprintf("(%s__%s %s)", c.sortOf(named), fl.Name(), x.T), S: fs, GT: fl.Type()}
+			}
 		}
 		var args []Val
 		for _, a := range e.Args {
